@@ -55,6 +55,12 @@ where
 
     // Batch size for draining commit notifications
     max_batch_size: usize,
+
+    // Highest log index already handed to the SM worker. The worker applies asynchronously and
+    // `last_applied` only advances when it finishes, so the next batch must start after this
+    // mark, not after `last_applied`, or entries still in flight are dispatched (and applied)
+    // a second time.
+    last_dispatched: std::sync::atomic::AtomicU64,
 }
 
 #[async_trait]
@@ -134,6 +140,7 @@ where
             sm_apply_tx: deps.sm_apply_tx,
             shutdown_signal: deps.shutdown_signal,
             max_batch_size: deps.max_batch_size,
+            last_dispatched: std::sync::atomic::AtomicU64::new(0),
         }
     }
 
@@ -153,6 +160,12 @@ where
         let Some(range) = pending_range else {
             return Ok(());
         };
+        // Skip what is already in flight to the SM worker (see `last_dispatched`).
+        let dispatched = self.last_dispatched.load(std::sync::atomic::Ordering::Acquire);
+        let range = (*range.start()).max(dispatched + 1)..=*range.end();
+        if range.is_empty() {
+            return Ok(());
+        }
         let entries = self.raft_log.get_entries_range(range)?;
 
         debug!(
@@ -284,6 +297,10 @@ where
     ) -> Result<()> {
         if !batch.is_empty() {
             let entries = std::mem::take(batch);
+            if let Some(last) = entries.last() {
+                self.last_dispatched
+                    .fetch_max(last.index, std::sync::atomic::Ordering::AcqRel);
+            }
             trace!(
                 "[Node-{}] Sending batch to SM Worker: {} entries",
                 self.my_id,
